@@ -3,7 +3,7 @@ CONSTANTS
   EmitCases = TRUE
   MaxPieces = 3
   MaxArgs = 2
-  PhTraits = {"Display", "Debug", "Pointer", "LowerHex", "Binary"}
+  PhTraits = {"Display", "Pointer", "LowerHex"}
   NFields = 2
 INVARIANTS
   P_C02_Text
